@@ -1,11 +1,269 @@
-import BrushVerif.Model.Flow
-import BrushVerif.Spec.FlowBash
-import BrushVerif.Spec.FlowScope
-namespace BrushVerif.C02
-open BrushVerif.Flow
+import BrushVerif.Proofs.FlowRefine
+/-!
+# C02 — break / continue / return / exit unwind exactly as in bash
 
-/-- `try_decrement_loop_levels` never produces a deeper jump and leaves return/exit alone. -/
-theorem dec_cases (f : Flow) :
+Property theorems over `Model/Flow.lean` (brush's result-value control flow: every command returns a
+`Flow` that the enclosing constructs inspect and decrement) against `Spec/FlowBash.lean` (bash's
+mechanism: the global counters `loop_level`, `breaking`, `continuing` and non-local `return`/`exit`).
+
+Quantifiers: every program (any nesting of lists, and-or lists, `!`, `if`, `while`/`until`, `for`,
+`case` with `;;`/`;&`/`;;&`, groups, subshells, function calls, `set -e`), every function table, every
+start state, every fuel (= every terminating run).
+
+The refinement holds on the domain `ws`/`okFuncs` (`Spec/FlowScope.lean`): every `break`/`continue`
+count is between 1 and the number of enclosing loops of the same function and subshell.  Outside it
+brush differs from bash (`flow_full_cex`): bash clamps a too large count to the loop depth, brush
+lets the residual count escape and skip the commands after the outermost loop.
+-/
+namespace BrushVerif.C02
+open BrushVerif.Flow BrushVerif.FlowBash BrushVerif.FlowScope BrushVerif.FlowRefine
+
+/-! ## 1. one command -/
+
+/-- A well-scoped command `c` run by brush under `d` enclosing loops, from any state, with result
+`(s', r)`: bash run from the corresponding state ends in the state corresponding to `s'` whose
+pending counters/flags encode `r.flow`; a pending loop jump never exceeds the `d` enclosing loops;
+and `$?` is the result code. -/
+theorem flow_refines_bash_partial (fuel : Nat) (fs : List Cmd) (sup : Bool) (c : Cmd) (s s' : St)
+    (r : Res) (d : Nat) (hfs : okFuncs fs) (hws : ws d c = true)
+    (h : exec fuel fs sup c s = some (s', r)) :
+    spec fuel fs sup c (absB d s .normal) = some (absB d s' r.flow) ∧ okFlow d r.flow ∧
+      s'.last = r.code :=
+  (exec_refines fuel).1 fs sup c s s' r d hfs hws h
+
+/-- non-vacuity: `f() { return 3; }; while m1; do for i in 1 2; do m2 || break 2; f; continue 2; done; done`
+satisfies every hypothesis (with a terminating run) -/
+example : let fs : List Cmd := [.ret (some 3)]
+    let c : Cmd := .whileU false (.leaf 1 [0, 0, 1])
+      (.forIn 2 (.seq (.cons (.andOr (.leaf 2 [0, 1]) (.cons false (.brk (some 2)) .nil))
+        (.cons (.call 0) (.cons (.cont (some 2)) .nil)))))
+    okFuncs fs ∧ ws 0 c = true ∧
+      exec 20 fs false c {} = some
+        ({ counts := [(1, 2), (2, 2)], trace := [.m 1, .m 2, .m 1, .m 2], last := 0 },
+         { code := 0, flow := .normal }) := by
+  refine ⟨?_, by decide, by decide +kernel⟩
+  intro body hb
+  simp at hb
+  subst hb
+  decide
+
+/-! ## 2. whole programs -/
+
+/-- Every program inside the guard, with any nesting and for any fuel: if brush's run terminates
+with output trace `out.1` and exit status `out.2`, bash's run terminates with the same trace of
+markers/probes and the same exit status. -/
+theorem program_refines_bash_partial (fuel : Nat) (fs : List Cmd) (main : Cmd)
+    (out : List Tr × Nat) (hfs : okFuncs fs) (hws : ws 0 main = true)
+    (h : Flow.runProgram fuel fs main = some out) :
+    FlowBash.runProgram fuel fs main = some out := by
+  unfold Flow.runProgram at h
+  split at h
+  · simp at h
+  · rename_i s r he
+    obtain ⟨e, _, l⟩ := (exec_refines fuel).1 fs false main {} s r 0 hfs hws he
+    have e' : spec fuel fs false main { st := {} } = some (absB 0 s r.flow) := e
+    simp only [FlowBash.runProgram, e']
+    simp only [Option.some.injEq] at h
+    rw [← h]
+    simp [absB, l]
+
+/-- non-vacuity: a guarded program whose brush run terminates, with `set -e`, a subshell, `case`
+fall-through, `until`, `!` and a probe of `$?` -/
+example : let fs : List Cmd := [.seq (.cons (.leaf 5 [0]) (.cons (.ret none) .nil))]
+    let main : Cmd := .seq (.cons (.setE true)
+      (.cons (.whileU true (.leaf 1 [1, 0])
+        (.case (.cons true (.bang (.leaf 2 [0])) .fallThrough (.cons false (.call 0) .contTest
+          (.cons true (.cont none) .exitCase .nil)))))
+      (.cons .probe (.cons (.subshell (.exit (some 4))) (.cons (.leaf 3 [0]) .nil)))))
+    okFuncs fs ∧ ws 0 main = true ∧
+      Flow.runProgram 30 fs main = some ([.m 1, .m 2, .m 5, .m 1, .q 0], 4) := by
+  refine ⟨?_, by decide, by decide +kernel⟩
+  intro body hb
+  simp at hb
+  subst hb
+  decide
+
+/-! ## 3. the unguarded statement is false -/
+
+/-- the refinement without the scoping guard -/
+def flow_refines_bash_full : Prop :=
+  ∀ (fuel : Nat) (fs : List Cmd) (main : Cmd) (out : List Tr × Nat),
+    Flow.runProgram fuel fs main = some out → FlowBash.runProgram fuel fs main = some out
+
+/-- `for i in 1; do break 2; done; L9`: bash clamps the count to the one enclosing loop and runs
+`L9`; brush's residual `break` leaves the list, so `L9` is skipped. -/
+theorem flow_full_cex : ¬ flow_refines_bash_full := by
+  intro h
+  have hb := h 10 [] (.seq (.cons (.forIn 1 (.brk (some 2))) (.cons (.leaf 9 [0]) .nil))) ([], 0)
+    (by decide +kernel)
+  revert hb
+  decide +kernel
+
+/-- the two runs of the witness -/
+example :
+    Flow.runProgram 10 [] (.seq (.cons (.forIn 1 (.brk (some 2))) (.cons (.leaf 9 [0]) .nil)))
+      = some ([], 0) ∧
+    FlowBash.runProgram 10 [] (.seq (.cons (.forIn 1 (.brk (some 2))) (.cons (.leaf 9 [0]) .nil)))
+      = some ([.m 9], 0) ∧
+    viol 0 (.seq (.cons (.forIn 1 (.brk (some 2))) (.cons (.leaf 9 [0]) .nil)))
+      = [.levelOutOfScope] := by
+  refine ⟨by decide +kernel, by decide +kernel, by decide⟩
+
+/-! ## 4. structural laws of brush's interpreter (all programs, no guard) -/
+
+private theorem post_flow (sup : Bool) (s : St) (r : Res) :
+    (post sup s r).2.flow = r.flow ∨
+      ((post sup s r).2.flow = .exit ∧ r.flow = .normal ∧ sup = false ∧ s.errexit = true ∧ r.code ≠ 0) := by
+  simp only [post]
+  split
+  · rename_i hc
+    simp only [Bool.and_eq_true, Bool.not_eq_true', decide_eq_true_eq] at hc
+    obtain ⟨⟨⟨h1, h2⟩, h3⟩, h4⟩ := hc
+    right
+    refine ⟨rfl, ?_, h1, h2, h3⟩
+    cases hf : r.flow <;> simp_all [Flow.isNormal]
+  · left; rfl
+
+private theorem post_fields (sup : Bool) (s : St) (r : Res) :
+    (post sup s r).1 = { s with last := r.code } ∧ (post sup s r).2.code = r.code := by
+  simp only [post]; split <;> exact ⟨rfl, rfl⟩
+
+/-- A subshell never lets `break`/`continue`/`return` (or the child's `exit`) escape: its flow is
+normal, or `exit` raised by errexit in the parent (not suppressed, `set -e` on in the parent, status
+non-zero).  Only output and status come back: counters, function depth and options are the parent's. -/
+theorem subshell_flow_is_normal_or_exit (fuel : Nat) (fs : List Cmd) (sup : Bool) (c : Cmd)
+    (s s' : St) (r : Res) (h : exec fuel fs sup (.subshell c) s = some (s', r)) :
+    (r.flow = .normal ∨ (r.flow = .exit ∧ sup = false ∧ s.errexit = true ∧ r.code ≠ 0)) ∧
+      s'.counts = s.counts ∧ s'.fdepth = s.fdepth ∧ s'.errexit = s.errexit ∧ s'.last = r.code := by
+  cases fuel with
+  | zero => simp [exec] at h
+  | succ fuel =>
+    simp only [exec] at h
+    split at h
+    · simp at h
+    · rename_i s1 r1 _
+      simp only [Option.some.injEq] at h
+      have hf := post_flow sup { s with trace := s1.trace } { code := r1.code, flow := .normal }
+      have hp := post_fields sup { s with trace := s1.trace } { code := r1.code, flow := .normal }
+      rw [h] at hf hp
+      obtain ⟨hp1, hp2⟩ := hp
+      simp only at hp1 hp2 hf
+      subst hp1
+      refine ⟨?_, rfl, rfl, rfl, hp2.symm⟩
+      rcases hf with hf | ⟨h1, _, h3, h4, h5⟩
+      · exact Or.inl hf
+      · exact Or.inr ⟨h1, h3, h4, hp2 ▸ h5⟩
+
+/-- non-vacuity: `(exit 7)` gives status 7 and normal flow; with `set -e` on in the parent the parent
+then exits; `for i in 1; do (break); done` — the `break` does not reach the parent's loop -/
+example :
+    exec 5 [] false (.subshell (.exit (some 7))) {} =
+      some ({ last := 7 }, { code := 7, flow := .normal }) ∧
+    exec 5 [] false (.subshell (.exit (some 7))) { errexit := true } =
+      some ({ last := 7, errexit := true }, { code := 7, flow := .exit }) ∧
+    exec 5 [] false (.forIn 1 (.subshell (.brk (some 1)))) {} =
+      some ({ last := 0 }, { code := 0, flow := .normal }) := by
+  refine ⟨by decide +kernel, by decide +kernel, by decide +kernel⟩
+
+/-- A function call consumes `return` and never lets `break`/`continue` out: its flow is normal or
+`exit`. -/
+theorem call_consumes_return (fuel : Nat) (fs : List Cmd) (sup : Bool) (f : Nat) (s s' : St) (r : Res)
+    (h : exec fuel fs sup (.call f) s = some (s', r)) :
+    (r.flow = .normal ∨ r.flow = .exit) ∧ s'.last = r.code := by
+  have key : ∀ (s0 : St) (r0 : Res), (r0.flow = .normal ∨ r0.flow = .exit) →
+      post sup s0 r0 = (s', r) → (r.flow = .normal ∨ r.flow = .exit) ∧ s'.last = r.code := by
+    intro s0 r0 h0 hp
+    have hf := post_flow sup s0 r0
+    have hq := post_fields sup s0 r0
+    rw [hp] at hf hq
+    obtain ⟨hq1, hq2⟩ := hq
+    simp only at hq1 hq2 hf
+    subst hq1
+    refine ⟨?_, hq2.symm⟩
+    rcases hf with hf | ⟨h1, _⟩
+    · rw [hf]; exact h0
+    · exact Or.inr h1
+  cases fuel with
+  | zero => simp [exec] at h
+  | succ fuel =>
+    simp only [exec] at h
+    split at h
+    · simp only [Option.some.injEq] at h
+      exact key _ _ (Or.inl rfl) h
+    · split at h
+      · simp at h
+      · rename_i s1 r1 _
+        split at h
+        · simp only [Option.some.injEq] at h; exact key _ _ (Or.inl rfl) h
+        · simp only [Option.some.injEq] at h; exact key _ _ (Or.inl rfl) h
+        · simp only [Option.some.injEq] at h; exact key _ _ (Or.inl rfl) h
+        · rename_i hb hc hr
+          simp only [Option.some.injEq] at h
+          refine key _ r1 ?_ h
+          cases hfl : r1.flow with
+          | normal => exact Or.inl rfl
+          | exit => exact Or.inr rfl
+          | brk k => exact absurd hfl (hb k)
+          | cont k => exact absurd hfl (hc k)
+          | ret => exact absurd hfl hr
+
+/-- non-vacuity: `f() { m1; return 5; m2; }; f` gives status 5 with normal flow, and
+`g() { break; }; for i in 1 2; do g; done` does not leave the loop through the call -/
+example :
+    exec 9 [.seq (.cons (.leaf 1 [0]) (.cons (.ret (some 5)) (.cons (.leaf 2 [0]) .nil)))] false (.call 0) {}
+      = some ({ counts := [(1, 1)], trace := [.m 1], last := 5 }, { code := 5, flow := .normal }) ∧
+    exec 9 [.brk none] false (.forIn 2 (.call 0)) {} =
+      some ({ last := 99 }, { code := 99, flow := .normal }) := by
+  refine ⟨by decide +kernel, by decide +kernel⟩
+
+/-- `! c` runs `c` with errexit suppressed, never changes the flow, and yields status 0/1 (the
+inversion of `c`'s status) except when `c` leaves by `return`/`exit`, whose status is kept. -/
+theorem bang_inverts_status_keeps_exit (fuel : Nat) (fs : List Cmd) (sup : Bool) (c : Cmd) (s s' : St)
+    (r : Res) (h : exec (fuel + 1) fs sup (.bang c) s = some (s', r)) :
+    ∃ s1 r1, exec fuel fs true c s = some (s1, r1) ∧ r.flow = r1.flow ∧
+      (r1.flow.isRetOrExit = true → r.code = r1.code) ∧
+      (r1.flow.isRetOrExit = false → r.code = if r1.code = 0 then 1 else 0) ∧
+      s' = { s1 with last := r.code } := by
+  simp only [exec] at h
+  split at h
+  · simp at h
+  · rename_i s1 r1 he
+    simp only [Option.some.injEq, Prod.mk.injEq] at h
+    obtain ⟨rfl, rfl⟩ := h
+    refine ⟨s1, r1, he, rfl, ?_, ?_, rfl⟩
+    · intro hj; simp [hj]
+    · intro hj; simp [hj]
+
+/-- non-vacuity: `! m1` (status 0) gives 1; inside a function `! return 4` keeps 4 -/
+example :
+    exec 5 [] false (.bang (.leaf 1 [0])) {} =
+      some ({ counts := [(1, 1)], trace := [.m 1], last := 1 }, { code := 1, flow := .normal }) ∧
+    exec 5 [] false (.bang (.ret (some 4))) { fdepth := 1 } =
+      some ({ last := 4, fdepth := 1 }, { code := 4, flow := .ret }) := by
+  refine ⟨by decide +kernel, by decide +kernel⟩
+
+/-- An `if` without `else` whose condition fails (normally) and so runs no branch has status 0 and
+normal flow — even under `set -e`. -/
+theorem if_no_branch_status_zero (fuel : Nat) (fs : List Cmd) (sup : Bool) (cond thn : Cmd)
+    (s s1 s' : St) (r1 r : Res)
+    (hc : exec fuel fs true cond s = some (s1, r1)) (hn : r1.flow = .normal) (hz : r1.code ≠ 0)
+    (h : exec (fuel + 1) fs sup (.if1 cond thn) s = some (s', r)) :
+    r = { code := 0, flow := .normal } ∧ s' = { s1 with last := 0 } := by
+  simp only [exec, hc, hn, Flow.isNormal, Bool.not_true, Bool.false_eq_true, ↓reduceIte, hz, postC,
+    Option.some.injEq, Prod.mk.injEq] at h
+  exact ⟨h.2.symm, h.1.symm⟩
+
+/-- non-vacuity: `set -e` on, `if m1(→1); then m2; fi` -/
+example :
+    exec 4 [] true (.leaf 1 [1]) { errexit := true } =
+      some ({ counts := [(1, 1)], trace := [.m 1], last := 1, errexit := true }, { code := 1, flow := .normal }) ∧
+    exec 5 [] false (.if1 (.leaf 1 [1]) (.leaf 2 [0])) { errexit := true } =
+      some ({ counts := [(1, 1)], trace := [.m 1], last := 0, errexit := true }, { code := 0, flow := .normal }) := by
+  refine ⟨by decide +kernel, by decide +kernel⟩
+
+/-- `try_decrement_loop_levels` never underflows: level 0 becomes normal flow, level `k+1` becomes
+level `k` of the same kind, everything else (normal, return, exit) is left alone. -/
+theorem dec_never_underflows (f : Flow) :
     (f = .brk 0 ∨ f = .cont 0) ∧ f.dec = .normal ∨
     (∃ k, f = .brk (k + 1) ∧ f.dec = .brk k) ∨ (∃ k, f = .cont (k + 1) ∧ f.dec = .cont k) ∨
     ((f = .normal ∨ f = .ret ∨ f = .exit) ∧ f.dec = f) := by
@@ -15,5 +273,14 @@ theorem dec_cases (f : Flow) :
   | cont k => cases k <;> simp [Flow.dec]
   | ret => simp [Flow.dec]
   | exit => simp [Flow.dec]
+
+example : (Flow.brk 2).dec = .brk 1 ∧ (Flow.cont 0).dec = .normal ∧ Flow.ret.dec = .ret := by decide
+
+/-- … and a jump that fits `d + 1` enclosing loops fits `d` after leaving one of them. -/
+theorem dec_keeps_scope (d : Nat) (f : Flow) (h : okFlow (d + 1) f) : okFlow d f.dec :=
+  okFlow_dec h
+
+example : okFlow 2 (.brk 1) ∧ okFlow 1 (Flow.brk 1).dec := by
+  refine ⟨?_, ?_⟩ <;> simp [okFlow, Flow.dec]
 
 end BrushVerif.C02
